@@ -126,7 +126,10 @@ impl Ckpt for MProp {
 }
 
 fn confidence_roundtrip(c: u8) -> Result<(), String> {
-    let cf: Confidence = conf(c);
+    confidence_value_roundtrip(conf(c))
+}
+
+fn confidence_value_roundtrip(cf: Confidence) -> Result<(), String> {
     let b = wire::to_bytes(&cf).map_err(|e| format!("serialize: {e}"))?;
     let r: Confidence = wire::from_bytes(&b).map_err(|e| format!("deserialize: {e}"))?;
     if r != cf || format!("{:?}", r) != format!("{:?}", cf) {
@@ -143,11 +146,27 @@ fn confidence_roundtrip(c: u8) -> Result<(), String> {
 /// A fixed corpus of Confidence and Interval values (every variant, special floats) pushed
 /// through both encoders; executed at the start of every 64th run so that it is part of a
 /// replayable trace.
-fn corpus_roundtrip() -> Result<u64, String> {
+fn corpus_roundtrip(seed: u64) -> Result<u64, String> {
     let mut n = 0;
     for c in 0..N_CONF {
         confidence_roundtrip(c).map_err(|e| format!("Confidence {}: {e}", conf_name(c)))?;
         n += 1;
+    }
+    // arbitrary levels in (0, 1): values that need all 17 digits, values next to 0 and 1, an f32
+    // level widened to f64, and seeded random ones - in all three kinds
+    let mut r = Rng::new(mix(seed, "confidence-levels", 0));
+    let mut levels = vec![1.0 / 3.0, 0.1 + 0.2, 0.95f32 as f64, 1.0 - 1e-13, 1e-13, 1.0 - f64::EPSILON / 2.0, 1e-300, 5e-324, 0.5, 2.0 / 3.0];
+    for _ in 0..16 {
+        let x = r.unit();
+        if x > 0.0 {
+            levels.push(x);
+        }
+    }
+    for &l in &levels {
+        for cf in [Confidence::new_two_sided(l), Confidence::new_upper(l), Confidence::new_lower(l)] {
+            confidence_value_roundtrip(cf).map_err(|e| format!("Confidence level {:?}: {e}", l))?;
+            n += 1;
+        }
     }
     let f64s = [0.0f64, -0.0, 1.0, -1.5, f64::MIN_POSITIVE, 5e-324, f64::MAX, -f64::MAX, f64::INFINITY, f64::NEG_INFINITY, 0.1, 1e300];
     for &a in &f64s {
@@ -223,7 +242,7 @@ pub fn exec<M: Ckpt>(tr: &Trace, stats: &mut Stats) -> (Vec<Violation>, Reach, V
         }};
     }
     if tr.run_index % 64 == 0 {
-        match corpus_roundtrip() {
+        match corpus_roundtrip(tr.verif_seed ^ tr.run_index) {
             Ok(n) => stats.add("corpus_value_roundtrips", n),
             Err(e) => fail!("value-round-trip", 0, e),
         }
